@@ -607,15 +607,19 @@ func (options *Options) Unmarshal(data []byte, optionDefs map[OptionID]OptionDef
 //
 // Returns modified options, number of used buf bytes and error if occurs.
 func (options Options) ResetOptionsTo(buf []byte, in Options) (Options, int, error) {
+	// check the buffer first: once the first option is stored the original list is gone
+	// (opts shares the backing array of options), so a too small buffer must be detected
+	// before anything is modified.
+	needed := 0
+	for i := range in {
+		needed += len(in[i].Value)
+	}
+	if len(buf) < needed {
+		return options, needed, ErrTooSmall
+	}
 	opts := options[:0]
 	used := 0
-	for idx, o := range in {
-		if len(buf) < len(o.Value) {
-			for i := idx; i < len(in); i++ {
-				used += len(in[i].Value)
-			}
-			return options, used, ErrTooSmall
-		}
+	for _, o := range in {
 		copy(buf, o.Value)
 		used += len(o.Value)
 		opts = opts.Add(Option{
